@@ -1,0 +1,73 @@
+// Verification hooks. Compiled only with the cargo feature `verif-hooks` (off by default); the
+// shipped crate is unchanged without it. Everything here is additive: a spawn shim that can hand
+// spawned futures to a harness-owned executor, re-exports of crate-private types, and thin
+// wrappers around crate-private methods.
+
+pub use crate::cmd::{LocalSwarmCmd, NetworkSwarmCmd};
+pub use crate::record_store::NodeRecordStoreConfig;
+pub use crate::record_store_api::UnifiedRecordStore;
+pub use crate::cmd::verif_cmd::verif_get_peers_in_range;
+pub use crate::record_store::verif_record_store::VerifStoreView;
+pub use crate::replication_fetcher::verif_fetcher::VerifFetcher;
+
+use std::{cell::RefCell, future::Future, panic::Location, pin::Pin};
+
+/// A future handed to `spawn` while a sink is installed on the calling thread.
+pub struct SpawnedTask {
+    /// `file:line` of the `spawn(...)` call.
+    pub site: String,
+    pub fut: Pin<Box<dyn Future<Output = ()> + Send + 'static>>,
+}
+
+thread_local! {
+    static SINK: RefCell<Option<Vec<SpawnedTask>>> = const { RefCell::new(None) };
+}
+
+/// From now on, futures spawned on this thread are collected instead of being given to tokio.
+pub fn install_spawn_sink() {
+    SINK.with(|s| *s.borrow_mut() = Some(Vec::new()));
+}
+
+/// Back to plain `tokio::spawn` on this thread. Returns what was still in the sink.
+pub fn remove_spawn_sink() -> Vec<SpawnedTask> {
+    SINK.with(|s| s.borrow_mut().take()).unwrap_or_default()
+}
+
+/// Take the futures collected since the last call (in spawn order).
+pub fn take_spawned() -> Vec<SpawnedTask> {
+    SINK.with(|s| s.borrow_mut().as_mut().map(std::mem::take).unwrap_or_default())
+}
+
+/// Drop-in for `tokio::spawn`.
+#[track_caller]
+pub fn spawn<F>(future: F) -> tokio::task::JoinHandle<F::Output>
+where
+    F: Future + Send + 'static,
+    F::Output: Send + 'static,
+{
+    let site = Location::caller();
+    let capturing = SINK.with(|s| s.borrow().is_some());
+    if !capturing {
+        return tokio::spawn(future);
+    }
+    let (tx, rx) = tokio::sync::oneshot::channel();
+    let fut = Box::pin(async move {
+        let out = future.await;
+        let _ = tx.send(out);
+    });
+    SINK.with(|s| {
+        if let Some(v) = s.borrow_mut().as_mut() {
+            v.push(SpawnedTask {
+                site: format!("{}:{}", site.file(), site.line()),
+                fut,
+            });
+        }
+    });
+    // The handle resolves when the harness has run the captured future to completion.
+    tokio::spawn(async move {
+        match rx.await {
+            Ok(out) => out,
+            Err(_) => std::future::pending().await,
+        }
+    })
+}
